@@ -98,13 +98,26 @@ impl ClientRequestTcpStream {
         // safety: we're gonna read n<=MAX_RESPONSE_HEAD bytes, and only use those
         let buf = unsafe { std::slice::from_raw_parts_mut(buf_ptr, MAX_RESPONSE_HEAD) };
 
-        let n = match self.stream.read(buf) {
-            Ok(0) => return Err(ClientError::UnexpectedEof),
-            Ok(n) => n,
-            Err(e) => return Err(ClientError::ReadFailure(e)),
-        };
-        let res = Response::parse(&buf[..n]).map_err(ClientError::ParsingFailure)?;
-        let body = BodyReader::from_response(&buf[res.buf_offset..n], self.stream, &res.headers);
+        // the head may arrive in several reads: keep reading while it is merely incomplete
+        let mut n = 0;
+        loop {
+            if n == MAX_RESPONSE_HEAD {
+                return Err(ClientError::ParsingFailure(HttpParsingError::UnexpectedEof));
+            }
+            n += match self.stream.read(&mut buf[n..]) {
+                Ok(0) => return Err(ClientError::UnexpectedEof),
+                Ok(k) => k,
+                Err(e) => return Err(ClientError::ReadFailure(e)),
+            };
+            match Response::parse(&buf[..n]) {
+                Ok(_) => break,
+                Err(HttpParsingError::UnexpectedEof) => continue,
+                Err(e) => return Err(ClientError::ParsingFailure(e)),
+            }
+        }
+        let buf = unsafe { std::slice::from_raw_parts(buf_ptr as *const u8, n) };
+        let res = Response::parse(buf).map_err(ClientError::ParsingFailure)?;
+        let body = BodyReader::from_response(&buf[res.buf_offset..], self.stream, &res.headers);
 
         Ok(ClientResponseHandle {
             headers: res.headers,
